@@ -122,8 +122,8 @@ def two_roll(chk, rng, name, kw, g):
                 return chk.fail('default-width', f"{name}: with {tkw} on the pass and no prescribed width the outgoing profile is {wt!r} wide, the usable width is {uw!r}",
                                 dict(data, target=tkw))
         for label, w in widths_for(uw, wc, rng):
-            if gap == 0.0 and w > uw:
-                continue        # with closed rolls the faces touch: there is no opening beside the groove to over-fill into
+            closed_overfilled = gap == 0.0 and w > uw      # closed rolls: the faces touch, there is no opening beside the groove to over-fill into -
+            # the pass and the constructor must both refuse (or both deliver the same valid shape), never hand out a degenerate polygon
             rp = make_pass(TwoRollPass, g, gap, size * 5)
             rp.out_profile.width = w
             data = {'groove': name, 'kwargs': kw, 'gap': gap, 'width': w, 'case': label}
@@ -140,7 +140,7 @@ def two_roll(chk, rng, name, kw, g):
                 ref, ref_err = None, e
             must_fail = w > 1.01 * wc * (1 + 1e-12)
             may_fail = w > 1.01 * wc * (1 - 1e-12)
-            if cs is None and not may_fail:
+            if cs is None and not may_fail and not closed_overfilled:
                 return chk.fail('rejects-admissible-width', f"{name} gap {gap:.4g}: prescribed width {w:.6g} ({label}; contour {wc:.6g}) is rejected: {err}", data)
             if cs is not None and must_fail:
                 return chk.fail('overwidth-not-reported', f"{name} gap {gap:.4g}: prescribed width {w:.6g} is {w / wc - 1:.2%} beyond the roll contours ({wc:.6g}) "
@@ -300,6 +300,45 @@ def explicit_in_width(chk):
         fs.hook.remove_function(fs)
 
 
+def observed_in_profile(chk):
+    """looking at the incoming profile before the solve (its width, height, equivalent rectangle - what a notebook display evaluates), or feeding the
+    out profile OBJECT of a solved pass into the next pass, changes nothing: the outgoing width is the prescribed one, by default the usable width"""
+    from pyroll.core import Roll, RollPass, Profile, CircularOvalGroove, RoundGroove
+    fs = RollPass.Profile.flow_stress(lambda self: 50e6)
+    try:
+        for prescribed in (None, 0.9):
+            g = CircularOvalGroove(depth=8e-3, r1=6e-3, r2=40e-3)
+            g2 = RoundGroove(r1=1e-3, r2=12.5e-3, depth=11.5e-3)
+            rp = RollPass(label="oval", roll=Roll(groove=g, nominal_radius=160e-3, rotational_frequency=1), gap=2e-3)
+            rp2 = RollPass(label="round", roll=Roll(groove=g2, nominal_radius=160e-3, rotational_frequency=1), gap=2e-3)
+            hf = None
+            if prescribed:
+                hf = RollPass.OutProfile.width(lambda self, cycle: None if cycle else prescribed * self.roll_pass.usable_width)
+            try:
+                ip = Profile.round(diameter=30e-3, temperature=1473.15, strain=0, material="C45", length=1)
+                looked = (ip.width, ip.height, ip.equivalent_rectangle, ip.equivalent_width)      # remembered on the incoming profile from here on
+                out = rp.solve(ip)
+                chk.cov['evaluations'] += 2
+                for label, unit, prof, groove in (("oval pass, incoming profile looked at before the solve", rp, out, g),):
+                    want = (prescribed or 1.0) * groove.usable_width
+                    w = prof.cross_section.bounds[2] - prof.cross_section.bounds[0]
+                    if abs(w - want) > 1e-9 * want or abs(float(unit.out_profile.width) - want) > 1e-9 * want:
+                        return chk.fail('width', f"{label}: the outgoing profile is {w:.6g} wide (out_profile.width = {float(unit.out_profile.width):.6g}), prescribed "
+                                        f"{'by a width model' if prescribed else 'by default (usable width)'}: {want:.6g}", {'prescribed': prescribed, 'case': label})
+                rp.out_profile.width, rp.out_profile.height        # the out profile object of the solved pass, looked at, is the next pass's incoming profile
+                out2 = rp2.solve(rp.out_profile)
+                want = (prescribed or 1.0) * g2.usable_width
+                w = out2.cross_section.bounds[2] - out2.cross_section.bounds[0]
+                if abs(w - want) > 1e-9 * want:
+                    return chk.fail('width', f"round pass fed with the out profile object of the solved oval pass: the outgoing profile is {w:.6g} wide, prescribed {want:.6g}",
+                                    {'prescribed': prescribed, 'case': 'out profile object as incoming profile'})
+            finally:
+                if hf is not None:
+                    hf.hook.remove_function(hf)
+    finally:
+        fs.hook.remove_function(fs)
+
+
 def run(chk):
     _ta.generate(chk)
     ok = True
@@ -355,6 +394,8 @@ def run(chk):
             two_roll(chk, rng, 'SplineGroove', {'contour_points': pts}, gs)
     if not chk.failures:
         solved_passes(chk, rng)
+    if not chk.failures:
+        observed_in_profile(chk)
     if not chk.failures:
         explicit_in_width(chk)
     chk.cov['distinct_nontrivial'] += built
